@@ -172,7 +172,7 @@ def _deadline_from(dstores, src_term, clock=None, allow_none=False):
 
 
 # ================================================================== C11
-def cancellation_edges(ctx, rep, rule):
+def cancellation_edges(ctx, rep, rule, prompt=False):
     """R11.2: every task-owning activation cancels-and-awaits its tasks on the
     CancelledError edge of every suspension point, before leaving its ownership scope"""
     r = ctx.roles
@@ -206,6 +206,17 @@ def cancellation_edges(ctx, rep, rule):
                          % src(e.node),
                          "jobs receive co_shutdown() while jobs of the same scheduler are still running "
                          "(e.g. when the enclosing scheduler cancels this nested run)", trace(e.st))
+        if prompt:
+            # ... and the cancellation goes through as soon as those tasks are over: the handler does not start a
+            # shutdown phase of its own (that phase belongs to the enclosing scheduler, under its own bound)
+            for e in an.events('SHUT'):
+                if e.st.a('cdelivered'):
+                    rep.fail(rule, "%s no shutdown phase inside a cancellation" % e.where,
+                             _func_of(ctx, e.node) or f.qualname,
+                             "`%s` awaited after CancelledError was delivered to this nested run" % src(e.node),
+                             "the enclosing scheduler, which has timed out or is aborting, waits without bound for "
+                             "the shutdown phase of the nested scheduler (its shutdown_timeout, not the enclosing "
+                             "one's; for ever when that is None)", trace(e.st))
         rep.need(rule + ":" + cls.name, n, 3, "cancellation edges of the nested run")
     # the broadcast owns the shutdown tasks
     an, ip, out = ctx.broadcast(gen_cancel=True)
